@@ -49,6 +49,18 @@ def read_view(kind, obj):
     return {"x": x, "ty": ty, "id": [int(i) for i in obj.origin_id()], "idxok": int(bool(ok)), "segs": segs}
 
 
+def nav(t):
+    """what the node handles of a tree report about their neighbours: parent id (-1: none), the x the parent handle reports, children ids, and the node's
+    own x asked by column name from the tree"""
+    out = []
+    col = t["x"]
+    for i in range(len(t)):
+        nd = t.node(i)
+        p = nd.parent()
+        out.append([-1 if p is None else int(p.id), 0 if p is None else int(round(float(p.x))), [int(k.id) for k in nd.children()], int(round(float(col[i])))])
+    return out
+
+
 def execute(c):
     P, hist = c["P"], c["hist"]
     n = len(P)
@@ -128,7 +140,8 @@ def execute(c):
             except Exception as ex:
                 rv = {"x": [], "ty": [], "id": [], "idxok": 0, "segs": [], "readerr": type(ex).__name__}
             rep_views.append(rv)
-        steps.append({"exc": exc, "trees": [{"x": ints(t.x()), "ty": ints(t.type()), "e": ints(t.ndata["level"]) if "level" in t.ndata else []} for t in trees], "views": rep_views})
+        steps.append({"exc": exc, "trees": [{"x": ints(t.x()), "ty": ints(t.type()), "e": ints(t.ndata["level"]) if "level" in t.ndata else [], "nav": nav(t)}
+                                            for t in trees], "views": rep_views})
     segs = t0.get_segments()
     treesegs = [[int(i) for i in s.origin_id()] for s in segs]
     if len(segs):
@@ -154,7 +167,20 @@ def execute(c):
         treesegs = [[-10, -10]]
     m = t0.get_adjacency_matrix().tocoo()
     adj = sorted([int(r), int(cc)] for r, cc, v in zip(m.row, m.col, m.data) if v != 0)
-    return {"steps": steps, "treesegs": treesegs, "adj": adj}
+    out = {"steps": steps, "treesegs": treesegs, "adj": adj, "edit": [], "treesegs2": [], "adj2": [], "nav2": []}
+    # last stage: the parent of one node is assigned through its handle (an admissible re-parenting); segments, adjacency and neighbours are asked again
+    ps = lib.pre_state(P, lib.vid(c))
+    if ps is not None:
+        Q, i = ps
+        t0.length(); t0.get_segments(); t0.get_branches(); t0.get_paths()
+        t0.node(i).pid = Q[i]
+        segs2 = t0.get_segments()
+        out["edit"] = [i, Q[i]]
+        out["treesegs2"] = [[int(v) for v in sg.origin_id()] for sg in segs2]
+        m = t0.get_adjacency_matrix().tocoo()
+        out["adj2"] = sorted([int(r), int(cc)] for r, cc, v in zip(m.row, m.col, m.data) if v != 0)
+        out["nav2"] = nav(t0)
+    return out
 
 
 def keyfn(c, o, why):
